@@ -348,6 +348,31 @@ func checkC20(c *core.Ctx) {
 		_, err := gqlparser.LoadSchema(&ast.Source{Name: name, Input: sdl})
 		add("load", err, nil, []string{name, "prelude.graphql"}, fmt.Sprintf("hand-written schema %q", clip(sdl, 200)))
 	}
+	// the hand-written documents of C08 / C18 under the without-suggestions variants of the rules
+	if hs, err := gqlparser.LoadSchema(&ast.Source{Name: "hand.graphql", Input: handRuleSDL}); err == nil {
+		vrs := append([]validator.Rule{}, standardRules...)
+		var vnames []string
+		for k := range vrs {
+			for _, v := range variantRules {
+				if vrs[k].Name == v.Base.Name {
+					vrs[k] = v.Variant
+				}
+			}
+			vnames = append(vnames, vrs[k].Name)
+		}
+		for _, q := range append(append([]string{}, handRuleDocs...), handComposeDocs...) {
+			doc, perr := parser.ParseQuery(&ast.Source{Name: "q.graphql", Input: q})
+			if perr != nil {
+				continue
+			}
+			func() {
+				defer func() { recover() }()
+				for _, e := range validator.Validate(hs, doc, vrs...) {
+					add("validate", e, vnames, []string{"q.graphql"}, fmt.Sprintf("document %q (rules without suggestions)", clip(q, 300)))
+				}
+			}()
+		}
+	}
 	// validation and coercion on a few schemas
 	nsch := 2
 	if c.Thorough() {
